@@ -41,7 +41,8 @@ def cases(tier, seed):
                     # reconf: the application changes the entity's configured maximum while the
                     # association is open - what was negotiated stays what it was
                     yield dict(role=role, local=local, peer=peer, seed=seed * 1009 + r,
-                               reconf=rnd.choice([None, None, None, 0, 7, 65536, 2 ** 32 - 1]))
+                               reconf=rnd.choice([None, None, None, 0, 7, 65536, 2 ** 32 - 1]),
+                               chatty=rnd.choice([0, 0, 0, 1, 2]) if role == 'requestor' else 0)
 
 
 def _sizes(limit):
@@ -116,8 +117,21 @@ def _requestor(case):
             peer.send_message(m['pcid'], {0x0002: FIND, 0x0100: 0x8020,
                                           0x0120: m['fields'].get(0x0110, 0), 0x0800: 1,
                                           0x0900: 0xFF00}, b'Z' * size, max_length=announced)
+        seen = {'n': 0}
+
+        def on_pdu(peer, p_):
+            # full-duplex traffic: the peer sends messages of its own - as large as the
+            # library said it would take - while the library is in the middle of sending
+            seen['n'] += 1
+            if seen['n'] % case['chatty'] == 0 and seen['n'] <= 40:
+                announced = peer.peer_max
+                size = min(announced - 6, 4000) if announced else 4000
+                peer.send_message(1, {0x0002: FIND, 0x0100: 0x8020, 0x0120: 0xFFFF, 0x0800: 1,
+                                      0x0900: 0xFF00}, b'C' * max(8, size - size % 2),
+                                  max_length=announced)
         world.serve_peer(ADDR, lambda sock: peers.ScriptedAcceptor(
-            world.sim, sock, max_length=pmax, on_message=on_message))
+            world.sim, sock, max_length=pmax, on_message=on_message,
+            on_pdu=on_pdu if case.get('chatty') else None))
         ae = world.make_ae(applicationentity.ClientAE, 'CLI', [rc.IMPLICIT_LE], local)
         ae.timeout = 3600
         ae.add_scu(sopclass.qr_find_scu)
@@ -147,7 +161,10 @@ def _requestor(case):
                     else:
                         msg.data_set = b'Q' * n
                     a.send(msg, 1)
-                    rsp, pcid = a.receive()
+                    while True:
+                        rsp, pcid = a.receive()
+                        if rsp.message_id_being_responded_to == i + 1:
+                            break           # (anything else is the peer's own traffic)
                     got_back.append(len(rsp.data_set or b''))
             res['done'] = True
         t = world.spawn(user, 'user')
